@@ -40,6 +40,7 @@ type Step struct {
 	Backup       bool              `json:"backup,omitempty"`    // retention: a backup client is configured
 	HWM          uint64            `json:"hwm,omitempty"`       // retention: high-water mark
 	Spill        int               `json:"spill,omitempty"`     // rtx: pages beyond old and new size spilled to the file and freed again
+	CloseSHM     bool              `json:"close_shm,omitempty"` // wtx: the writer's -shm descriptor is closed with the write lock still held (the process exits right after its commit)
 	NoSync       bool              `json:"no_sync,omitempty"`   // rtx: PRAGMA synchronous=OFF (journal header complete from the start, record count 0xffffffff, never rewritten)
 }
 
@@ -401,6 +402,9 @@ func (h *Runner) genWTX(cur uint32) Step {
 	if r.Chance(30) && len(st.Frames) > 1 { // repeat a page inside the tx
 		st.Frames = append(st.Frames, [2]uint64{st.Frames[0][0], h.nextContent()})
 	}
+	if r.Chance(15) {
+		st.CloseSHM = true
+	}
 	if r.Chance(20) {
 		for i := 0; i < 1+r.Intn(3); i++ {
 			st.Aborted = append(st.Aborted, [2]uint64{uint64(1 + r.Intn(int(maxU32(cur, 1)))), h.nextContent()})
@@ -596,7 +600,9 @@ func (h *Runner) Exec(st Step) Obs {
 				h.Pager.EndWALWrite()
 				return
 			}
+			h.Pager.CloseSHM = st.CloseSHM
 			h.Pager.EndWALWrite()
+			h.Pager.CloseSHM = false
 			h.Ref = lfs.ApplyTx(h.Ref, tx, ps)
 			h.RefPos++
 			ob.Captured = true
